@@ -11,8 +11,8 @@ Requests (all numbers are integers; order values/interfaces are pre-scaled by th
   ext  <lammps-asis|lammps-rep|cp2k:<box0>> <left> <right> <maxlen> <rev> <code> <fuel>
        <n> (cid bid vel)…   <m> (file vis vis2 alive)…   <q> (cid bid value)…
   inproc <ase 0|1> <left> <right> <maxlen> <rev> <sub> <n> (cid bid vel)… <q> (cid bid value)…
-  gmx  <left> <right> <maxlen> <rev> <n> (cid bid vel)… <q> (cid bid value)…
-  gmxext <left> <right> <maxlen> <rev> <code> <need0> <fuel> <n> (cid bid vel)… <m> (file vis vis2 alive)… <q> (cid bid value)…
+  gmx  <asis|rep> <left> <right> <maxlen> <rev> <n> (cid bid vel)… <q> (cid bid value)…
+  gmxext <asis|rep> <left> <right> <maxlen> <rev> <code> <need0> <fuel> <n> (cid bid vel)… <m> (file vis vis2 alive)… <q> (cid bid value)…
 -/
 
 def showStatus : Option PStatus → String
@@ -153,7 +153,7 @@ def handle (toks : List String) : String :=
         showResult (inproc c sub micro (ase = "1"))
       | _ => "bad-op"
     | _, _, _, _, _ => "bad-op"
-  | "gmxext" :: l :: r :: ml :: rev :: code :: need0 :: fuel :: rest =>
+  | "gmxext" :: gv :: l :: r :: ml :: rev :: code :: need0 :: fuel :: rest =>
     match parseInt? l, parseInt? r, parseNat? ml, parseInt? code, parseNat? need0, parseNat? fuel, takeTriples rest with
     | some l, some r, some ml, some code, some need0, some fuel, some (fr, rest) =>
       match takeQuads rest with
@@ -161,17 +161,17 @@ def handle (toks : List String) : String :=
         match takeTriples rest with
         | some (tab, []) =>
           let c : Cfg := { ord := tableOrd tab, left := l, right := r, maxlen := ml, rev := rev = "1" }
-          showResult (gmxExt c (toSched ws) code need0 (toFrames fr) fuel)
+          showResult (gmxExt (if gv = "rep" then .repaired else .asIs) c (toSched ws) code need0 (toFrames fr) fuel)
         | _ => "bad-op"
       | none => "bad-op"
     | _, _, _, _, _, _, _ => "bad-op"
-  | "gmx" :: l :: r :: ml :: rev :: rest =>
+  | "gmx" :: gv :: l :: r :: ml :: rev :: rest =>
     match parseInt? l, parseInt? r, parseNat? ml, takeTriples rest with
     | some l, some r, some ml, some (fr, rest) =>
       match takeTriples rest with
       | some (tab, []) =>
         let c : Cfg := { ord := tableOrd tab, left := l, right := r, maxlen := ml, rev := rev = "1" }
-        showResult (gmxRun c (toFrames fr))
+        showResult (gmxRun (if gv = "rep" then .repaired else .asIs) c (toFrames fr))
       | _ => "bad-op"
     | _, _, _, _ => "bad-op"
   | _ => "bad-op"
